@@ -12,7 +12,31 @@ SPEC = specmodel.get()
 NoneType = type(None)
 
 
+_CTX = {"L": None, "S": None}
+
+
+class using:
+    """evaluate against another types module / metamodel (evolved models of C06)"""
+
+    def __init__(self, L, S):
+        self.new = {"L": L, "S": S}
+
+    def __enter__(self):
+        global SPEC
+        self.old = dict(_CTX)
+        self.old_spec = SPEC
+        _CTX.update(self.new)
+        SPEC = self.new["S"]
+
+    def __exit__(self, *a):
+        global SPEC
+        _CTX.update(self.old)
+        SPEC = self.old_spec
+
+
 def _lsp():
+    if _CTX["L"] is not None:
+        return _CTX["L"]
     from lsprotocol import types
 
     return types
@@ -35,7 +59,7 @@ def expected_annotation(t, and_name=None, depth=0):
             return float
         if n == "boolean":
             return bool
-        if n in ("string", "DocumentUri", "URI"):
+        if n in ("string", "DocumentUri", "URI", "RegExp"):
             return str
         if n == "null":
             return NoneType
@@ -89,14 +113,16 @@ VKINDS = {0: "none", 1: "integer_validator", 2: "uinteger_validator", 3: "instan
 def expected_validator(p):
     t = p["type"]
     if t["kind"] == "base":
-        return {"integer": 1, "uinteger": 2, "string": 3, "DocumentUri": 3, "URI": 3, "boolean": 4, "decimal": 5}.get(t["name"], 0)
+        return {"integer": 1, "uinteger": 2, "string": 3, "DocumentUri": 3, "URI": 3, "RegExp": 3, "boolean": 4, "decimal": 5}.get(t["name"], 0)
     if t["kind"] == "stringLiteral":
         return 6
     return 0
 
 
 def actual_validator(f, literal=None):
-    from lsprotocol import validators as VAL
+    VAL = getattr(_lsp(), "validators", None)
+    if VAL is None:
+        from lsprotocol import validators as VAL
 
     v = f.validator
     if v is None:
@@ -119,9 +145,10 @@ def actual_validator(f, literal=None):
 def rows():
     """returns (spec_rows, impl_rows, notes): (class, wire, fact) -> value"""
     L = _lsp()
-    from lsprotocol import converters
+    if _CTX["L"] is None:
+        from lsprotocol import converters
 
-    converters.get_converter()  # resolves forward references
+        converters.get_converter()  # resolves forward references
     a, b, notes = {}, {}, []
     # definitions
     for n in list(SPEC.structs) + list(SPEC.enums) + list(SPEC.aliases):
